@@ -12,6 +12,7 @@ pub fn ctok(c: char) -> String {
     match c {
         '\u{e9}' => "@E".into(),
         '\u{3042}' => "@T".into(),
+        '\u{e01}' => "@K".into(),
         '\u{1F600}' => "@Q".into(),
         '\n' | '\r' | '\t' => c.to_string(),
         c if (' '..='~').contains(&c) => c.to_string(),
